@@ -104,11 +104,38 @@ type HarnessResult struct {
 
 func (e *Engine) recordViolation(st *State, f *Failure, model *Env) {
 	v := &Violation{Kind: f.kind, Name: f.name, Msg: f.msg, Pos: f.pos, Func: f.fn, Stack: f.stack, Inputs: map[string]string{}, Uncertain: st.uncertain}
-	if model == nil {
-		r, m, _ := e.solver.Check(st.pc, true)
+	// the witness must assign every variable of the path condition (and of the failed
+	// goal): complete a partial model by solving pc with the known values pinned
+	complete := model != nil
+	if model != nil {
+		for _, pv := range e.ts.Vars(st.pc...) {
+			if _, ok := model.vals[pv.name]; !ok {
+				complete = false
+				break
+			}
+		}
+	}
+	if !complete {
+		as := append([]*Term(nil), st.pc...)
+		if model != nil {
+			for _, pv := range e.ts.Vars(st.pc...) {
+				if val, ok := model.vals[pv.name]; ok {
+					as = append(as, e.ts.Eq(pv, e.ts.ConstBig(pv.w, val)))
+				}
+			}
+		}
+		r, m, _ := e.solver.Check(as, true)
 		if r == Sat {
-			model = NewEnv()
-			model.vals = m
+			nm := NewEnv()
+			if model != nil {
+				for k, val := range model.vals {
+					nm.vals[k] = val
+				}
+			}
+			for k, val := range m {
+				nm.vals[k] = val
+			}
+			model = nm
 		}
 	}
 	if model != nil {
